@@ -219,11 +219,13 @@ def modsOf (add rem : ES.Mods) : Parse.Mods :=
     multiline := if add.m then some true else if rem.m then some false else none
     dotAll := if add.s then some true else if rem.s then some false else none }
 
-/-- `quantifier_allowed` of the atom printed for `n` (`^ $`: no; look-behind: no; look-ahead: only
-without `u`/`v`; everything else, including `\b \B`: yes). -/
+/-- `quantifier_allowed` of the atom printed for `n` (`^ $ \b \B`: no; look-behind: no; look-ahead:
+only without `u`/`v`; everything else: yes). -/
 def quantifiable (fl : IR.Flags) : ES.Node → Bool
   | .bol => false
   | .eol => false
+  | .wb => false
+  | .nwb => false
   | .look ahead _ _ => ahead && !fl.unicode
   | _ => true
 
@@ -307,6 +309,17 @@ end
 
 /-! ## Normal form of the AST (what the pattern text can express) -/
 
+/-- What a child of a `cat` contributes to the flat sequence of terms. -/
+def catItems : ES.Node → List ES.Node
+  | .cat ms => ms
+  | .empty => []
+  | m => [m]
+
+/-- What a child of an `alt` contributes to the flat list of alternatives. -/
+def altItems : ES.Node → List ES.Node
+  | .alt ms => ms
+  | m => [m]
+
 mutual
 /-- Flatten `cat` in `cat`, `empty` in `cat`, `alt` in `alt`. -/
 def normalize : ES.Node → ES.Node
@@ -320,17 +333,10 @@ def normalize : ES.Node → ES.Node
   | n => n
 def normCat : List ES.Node → List ES.Node
   | [] => []
-  | n :: ns =>
-    (match normalize n with
-     | .cat ms => ms
-     | .empty => []
-     | m => [m]) ++ normCat ns
+  | n :: ns => catItems (normalize n) ++ normCat ns
 def normAlt : List ES.Node → List ES.Node
   | [] => []
-  | n :: ns =>
-    (match normalize n with
-     | .alt ms => ms
-     | m => [m]) ++ normAlt ns
+  | n :: ns => altItems (normalize n) ++ normAlt ns
 end
 
 /-! ## Resource limits, `finalize`, `try_parse` -/
